@@ -120,27 +120,38 @@ def lowrank_pair(state, lr, iso_scheme, uni_scheme, partition):
     return est, act
 
 
-def real_phase1_diagnosis(state, lr, iso_scheme, uni_scheme, partition, diff):
-    """For the known-finding predicate.  Phase 1 of the low-rank preparation encodes the vector of singular values, a
-    REAL non-negative vector whatever the input; when it has >= 8 entries its own preparation contains a real 4x2
-    isometry whose circuit needs 2 instead of 3 cx when the real extension has determinant +1.  Here the same
-    sub-preparation is synthesised alone: the difference is `explained` when it equals the total difference."""
+def real_phase1_excess(state, lr, iso_scheme, uni_scheme, partition, found):
+    """Sum of (estimate - actual) over the REAL sub-preparations of the low-rank algorithm with >= 8 entries.
+    Phase 1 encodes the vector of singular values - real and non-negative whatever the input; when it has >= 8 entries
+    its own preparation contains a real 4x2 isometry whose real orthogonal 4x4 extension Qiskit synthesises with 2 cx
+    when its determinant is +1 (the estimate charges 3).  For rank 1 the two factors are prepared by nested low-rank
+    preparations (default options), which are followed recursively."""
     from qclib.entanglement import schmidt_decomposition
     n = int(np.log2(len(state)))
+    if n < 2:
+        return 0
     part = sorted(partition) if partition is not None else list(range(n // 2 + n % 2))
+    rank, svd_u, sv, svd_v = schmidt_decomposition(np.array(state), part, rank=lr)
+    total = 0
+    if rank >= 8:
+        found.append(int(rank))
+        e1, a1 = lowrank_pair(sv / np.linalg.norm(sv), 0, iso_scheme, uni_scheme, None)
+        total += e1 - a1
+    if rank == 1:
+        total += real_phase1_excess(svd_u[:, 0], 0, iso_scheme, uni_scheme, None, found)
+        total += real_phase1_excess(svd_v.T[:, 0], 0, iso_scheme, uni_scheme, None, found)
+    return total
+
+
+def real_phase1_diagnosis(state, lr, iso_scheme, uni_scheme, partition, diff):
+    """for the known-finding predicate: the whole difference is produced by real phase-1 sub-preparations"""
+    found = []
     try:
-        rank, _, sv, _ = schmidt_decomposition(np.array(state), part, rank=lr)
-        out = {"schmidt_rank": int(rank)}
-        if rank >= 8:
-            sv = sv / np.linalg.norm(sv)
-            e1, a1 = lowrank_pair(sv, 0, iso_scheme, uni_scheme, None)
-            out["phase1_estimate_minus_actual"] = e1 - a1
-            out["explained_by_real_phase1"] = bool(e1 - a1 == diff and diff > 0)
-        else:
-            out["explained_by_real_phase1"] = False
-        return out
+        excess = real_phase1_excess(state, lr, iso_scheme, uni_scheme, partition, found)
     except Exception:  # noqa: BLE001
         return {"explained_by_real_phase1": False}
+    return {"real_phase1_vectors": found, "real_phase1_excess": int(excess),
+            "explained_by_real_phase1": bool(found and excess == diff and diff > 0)}
 
 
 def eval_lowrank(ctx, state, lr, iso_scheme, uni_scheme, partition, fam, demanded=True):
@@ -226,7 +237,7 @@ def evaluate(ctx, deep):
     # ---- unitaries
     un_max = 6 if deep else 5
     for n in range(1, un_max + 1):
-        reps = ({1: 2, 2: 3, 3: 3, 4: 2, 5: 2, 6: 1} if deep else {1: 1, 2: 2, 3: 2, 4: 1, 5: 1})[n]
+        reps = ({1: 2, 2: 4, 3: 4, 4: 4, 5: 3, 6: 2} if deep else {1: 2, 2: 3, 3: 3, 4: 2, 5: 1})[n]
         for _ in range(reps):
             U = haar(rng, 2 ** n)
             key_u = tuple(np.round(U[0], 12).tolist())
@@ -243,7 +254,7 @@ def evaluate(ctx, deep):
     iso_max = 5
     for n in range(1, iso_max + 1):
         for m in range(0, n + 1):
-            reps = ({1: 2, 2: 3, 3: 3, 4: 2, 5: 1} if deep else {1: 1, 2: 2, 3: 2, 4: 1, 5: 1})[n]
+            reps = ({1: 2, 2: 4, 3: 4, 4: 4, 5: 3} if deep else {1: 2, 2: 3, 3: 3, 4: 2, 5: 1})[n]
             for _ in range(reps):
                 V = haar(rng, 2 ** n)[:, :2 ** m]
                 key_v = tuple(np.round(V[:, 0], 12).tolist())
@@ -262,14 +273,14 @@ def evaluate(ctx, deep):
                 ctx.count(fam, key=(scheme, 6, m, tuple(np.round(V[:, 0], 12).tolist())), nontrivial=True)
                 eval_isometry(ctx, V, scheme, fam)
     # ---- low-rank state preparation
-    lr_max = 7 if deep else 6
+    lr_max = 7
     for n in range(1, lr_max + 1):
         parts = [None] + valid_partitions(n)
         if n >= 5:      # None, the contiguous ones, and a random selection
             allp = valid_partitions(n)
-            pick = [allp[i] for i in sorted(rng.permutation(len(allp))[: (10 if deep else 5)])]
+            pick = [allp[i] for i in sorted(rng.permutation(len(allp))[: (14 if deep else 5)])]
             parts = [None, [0], [n - 1], list(range(1, n // 2 + 1))] + pick
-        reps = 2 if (deep and n <= 5) else 1
+        reps = (3 if n <= 5 else 2) if deep else (2 if n <= 4 else 1)
         for _ in range(reps):
             v = rand_state(rng, 2 ** n)
             key_s = tuple(np.round(v[:4], 12).tolist())
